@@ -123,6 +123,9 @@ def ladder(func: FuncInfo, subject: str):
 def run(chk: Check) -> None:
     prog = chk.prog
     calls = chk.ctx.calls
+    # "the same holds when the process was checkpointed and restored": the pending call's arguments are copied into the checkpoint (shared with C07)
+    from .c07 import members_deepcopied
+    members_deepcopied(chk)
     running = prog.cls('process_states.Running')
     ac = prog.func('process_states.Running._action_command')
     subject = ac.params[1] if len(ac.params) > 1 else 'command'
@@ -318,3 +321,44 @@ def resume_value_forwarding(chk: Check, rule: str) -> None:
         ok_null &= shapes == {'with', 'without'}
     chk.ob(rule, we, ok_null, 'resume value forwarded to the continuation exactly when it is not NULL '
            '(f(v) after resume(v), f() after resume())', kind='resume-value-forwarded')
+    resume_value_reaches_future(chk, rule)
+
+
+def resume_value_reaches_future(chk: Check, rule: str) -> None:
+    """Waiting.resume(value): while the waiting future is still pending, EVERY normal way through resume() hands ``value``
+    to the future (decision table over the leaf ``<future>.done()`` = False; any other test is explored both ways).  And
+    nobody else resolves that future with a result: a result written elsewhere is a wake-up without / with another value."""
+    from ..decisions import paths_under
+    from ..fut import writer_sites
+    prog = chk.prog
+    LOC = 'self._waiting_future'
+    w = prog.cls('process_states.Waiting')
+    wr = prog.func('process_states.Waiting.resume')
+    vparam = wr.params[1] if len(wr.params) > 1 else None
+    ff = chk.ctx.facts.analyse(wr)
+    mine = [s for s in writer_sites(chk.ctx, wr, [LOC]) if s.op == 'set_result' and len(s.call.args) == 1 and norm(s.call.args[0]) == vparam]
+    wnodes = {m.id for s in mine for m in ff.cfg.nodes_containing(s.call)}
+    bad = None
+    try:
+        for path in paths_under(ff, {f'{LOC}.done()': False}):
+            if path[-1] is ff.cfg.exit and not any(m.id in wnodes for m in path):
+                bad = path
+                break
+    except RuntimeError:
+        bad = []
+    where = None
+    if bad:
+        tests = [m for m in bad if m.kind == 'test']
+        where = tests[-1].ast if tests else None
+    chk.ob(rule, wr, vparam is not None and bool(mine) and bad is None,
+           'while the waiting future is pending every normal way through resume(value) resolves the future with that value '
+           '(a path that returns without doing so drops the value: the continuation runs without it, or never)', node=where, kind='resume-value-reaches-future')
+    # (a subclass may add its own wake-up -- the workchain's awaitable completion resolves the future with NULL, that is
+    # C10's mechanism; the rule is about the base state, where resume() is the only source of a result)
+    for c in [w]:
+        for f in c.methods.values():
+            for s in writer_sites(chk.ctx, f, [LOC]):
+                if s.op == 'set_result' and not any(s.call is m.call for m in mine):
+                    chk.ob(rule, f, False, 'the waiting future is given a result outside resume(value): the continuation is woken with a value nobody passed to resume()',
+                           node=s.call, kind='foreign-result')
+
